@@ -1,4 +1,67 @@
-(* C11 placeholder, replaced below *)
-From RV Require Import Model.Mapping.
-Theorem C11_placeholder : True. Proof. exact I. Qed.
-Eval cbv in "ASSUMPTIONS-OF C11_placeholder"%string. Print Assumptions C11_placeholder.
+(* C11  Any inventory content yields a value or an error, never a crash.  Statements only.
+   Every todo!/unreachable!/unwrap/panic! site on a modelled path is an outcome [Panic site] of
+   the model; the theorems show that none is reachable when the inventory is rendered:
+   Proofs/NoPanic.v (interpreter), Proofs/YamlFacts.v (conversion of file contents),
+   Proofs/NodeFacts.v (include walk and node rendering), Proofs/ParserFacts.v (parser).
+   Domain of the rendering theorems: files whose mapping keys are scalars with at most one
+   marker, distinct after stripping ("clean"); other shapes (container keys, double markers)
+   are exercised by the crash-freedom runs of the check, where conversion and rendering return
+   errors.
+   PARTIAL (DESIGN section 7): byte-level YAML parsing, file-system faults and stack exhaustion
+   live in libraries and the runtime; no Gallina model exhibits them; they are covered by the
+   correspondence / crash-freedom runs only. *)
+From RV Require Import Model.Node Proofs.MappingFacts Proofs.WfFacts Proofs.NoPanic Proofs.YamlFacts Proofs.NodeFacts Proofs.ParserFacts.
+
+(** Converting the content of an inventory file never panics (tagged values and a mapping that
+    overwrites its own constant key are errors). *)
+Theorem C11_file_conversion_never_panics :
+  forall y s, try_value_of_yaml y <> Panic s /\ try_value_of_yaml y <> OutOfFuel.
+Proof. exact try_value_no_panic. Qed.
+Eval cbv in "ASSUMPTIONS-OF C11_file_conversion_never_panics"%string. Print Assumptions C11_file_conversion_never_panics.
+
+Theorem C11_class_and_node_documents_never_panic :
+  forall loc doc s, node_of_yaml loc doc <> Panic s.
+Proof. exact node_of_yaml_no_panic. Qed.
+Eval cbv in "ASSUMPTIONS-OF C11_class_and_node_documents_never_panic"%string. Print Assumptions C11_class_and_node_documents_never_panic.
+
+(** Clean YAML converts to well-formed values (the hypothesis of the theorems below is met). *)
+Theorem C11_clean_yaml_is_wellformed :
+  forall y, clean_yaml y -> exists v, try_value_of_yaml y = Ok v /\ wf v.
+Proof. exact try_value_wf. Qed.
+Eval cbv in "ASSUMPTIONS-OF C11_clean_yaml_is_wellformed"%string. Print Assumptions C11_clean_yaml_is_wellformed.
+
+(** The reference interpreter never reaches a panic site: not the two unreachable! arms of
+    Value::merge, not the todo!/panic! arms of the JSON conversion, not the unreachable! arms of
+    push_mapping_key and Token::resolve. *)
+Theorem C11_interpolation_never_panics :
+  forall f root v st s, wf (VMap root) -> wf v -> interp f root v st <> Panic s.
+Proof. exact interp_no_panic. Qed.
+Eval cbv in "ASSUMPTIONS-OF C11_interpolation_never_panics"%string. Print Assumptions C11_interpolation_never_panics.
+
+Theorem C11_text_form_never_panics : forall v s, raw_string v <> Panic s.
+Proof. exact raw_string_no_panic. Qed.
+Eval cbv in "ASSUMPTIONS-OF C11_text_form_never_panics"%string. Print Assumptions C11_text_form_never_panics.
+
+(** Rendering a node -- loading its classes recursively, merging, interpolating -- never panics. *)
+Theorem C11_render_node_never_panics :
+  forall f fi cfg root ntbl ctbl name s,
+    clean_table ctbl -> Forall (fun ne => clean_doc (ne_doc ne)) ntbl ->
+    render_node f fi cfg root ntbl ctbl name <> Panic s.
+Proof. exact render_node_no_panic. Qed.
+Eval cbv in "ASSUMPTIONS-OF C11_render_node_never_panics"%string. Print Assumptions C11_render_node_never_panics.
+
+(** The reference parser terminates on every string. *)
+Theorem C11_parser_terminates : forall s, parse_ref s <> PFuel.
+Proof. exact parse_ref_terminates. Qed.
+Eval cbv in "ASSUMPTIONS-OF C11_parser_terminates"%string. Print Assumptions C11_parser_terminates.
+
+(** Non-vacuity: a clean document with a marker key, a nested mapping and a reference. *)
+Example C11_nonvacuous :
+  clean_yaml (YMap [(YStr "=a", YMap [(YStr "b", YStr "${c}")]); (YStr "c", YSeq [YNum (NInt 1)])]).
+Proof.
+  assert (K : forall l ks, ykeys l = Some ks -> NoDup (map stripped ks) -> Forall (fun k => unmarked (stripped k)) ks -> clean_keys l)
+    by (intros l ks H1 H2 H3; exists ks; tauto).
+  cbn [clean_yaml]. repeat match goal with |- _ /\ _ => split end; try exact I.
+  - eapply K; [reflexivity | cbn; repeat constructor; cbn; intuition discriminate | repeat constructor].
+  - eapply K; [reflexivity | cbn; repeat constructor; cbn; tauto | repeat constructor].
+Qed.
